@@ -213,38 +213,8 @@ guards:
 // test of a kind computed from v.Kind(): a comparison with a constant or a module predicate over kinds,
 // of v.Kind() itself or of a module function of kinds (read as tables) with v.Kind() among its arguments.
 func kindsOnEdge(p *an.Prog, cond ssa.Value, taken bool, v ssa.Value) (map[int64]bool, bool) {
-	var kv ssa.Value
-	in := map[int64]bool{} // the values of the tested kind on this edge
-	if b, ok := cond.(*ssa.BinOp); ok && (b.Op == token.EQL || b.Op == token.NEQ) {
-		for _, pair := range [][2]ssa.Value{{b.X, b.Y}, {b.Y, b.X}} {
-			k, isC := an.ConstInt(pair[1])
-			if !isC || !isPkgType(pair[0].Type(), "reflect", "Kind") {
-				continue
-			}
-			kv = pair[0]
-			for a := int64(0); a < kindCount; a++ {
-				if (a == k) == ((b.Op == token.EQL) == taken) {
-					in[a] = true
-				}
-			}
-		}
-	} else if pc := an.CallOf(cond); pc != nil && len(pc.Args) == 1 && isPkgType(pc.Args[0].Type(), "reflect", "Kind") {
-		callee := pc.StaticCallee()
-		if callee == nil || !p.InModule(callee) {
-			return nil, false
-		}
-		tab := kindTableOf(p, callee, 0)
-		if !tab.ok {
-			return nil, false
-		}
-		kv = pc.Args[0]
-		for pr, val := range tab.val {
-			if (val == 1) == taken {
-				in[pr[0]] = true
-			}
-		}
-	}
-	if kv == nil {
+	kv, in, ok := kindTestOnEdge(p, cond, taken)
+	if !ok {
 		return nil, false
 	}
 	isKindOfV := func(x ssa.Value) bool {
@@ -284,4 +254,154 @@ func kindsOnEdge(p *an.Prog, cond ssa.Value, taken bool, v ssa.Value) (map[int64
 		}
 	}
 	return out, true
+}
+
+// kindTestOnEdge: cond tests a reflect.Kind value kv - by comparing it with a constant, by a module predicate
+// over kinds, or by comparing its class (a module function of one kind, read as a table) with a constant -
+// and in is the set of kinds kv can have when the branch goes the way taken.
+func kindTestOnEdge(p *an.Prog, cond ssa.Value, taken bool) (ssa.Value, map[int64]bool, bool) {
+	in := map[int64]bool{}
+	if b, ok := cond.(*ssa.BinOp); ok && (b.Op == token.EQL || b.Op == token.NEQ) {
+		for _, pair := range [][2]ssa.Value{{b.X, b.Y}, {b.Y, b.X}} {
+			k, isC := an.ConstInt(pair[1])
+			if !isC {
+				continue
+			}
+			want := (b.Op == token.EQL) == taken
+			if isPkgType(pair[0].Type(), "reflect", "Kind") {
+				for a := int64(0); a < kindCount; a++ {
+					if (a == k) == want {
+						in[a] = true
+					}
+				}
+				return pair[0], in, true
+			}
+			// the class of a kind compared with a constant
+			if cc := an.CallOf(pair[0]); cc != nil && len(cc.Args) == 1 && isPkgType(cc.Args[0].Type(), "reflect", "Kind") {
+				callee := cc.StaticCallee()
+				if callee == nil || !p.InModule(callee) {
+					continue
+				}
+				tab := kindTableOf(p, callee, 0)
+				if !tab.ok {
+					continue
+				}
+				for pr, val := range tab.val {
+					if (val == k) == want {
+						in[pr[0]] = true
+					}
+				}
+				return cc.Args[0], in, true
+			}
+		}
+		return nil, nil, false
+	}
+	if pc := an.CallOf(cond); pc != nil && len(pc.Args) == 1 && isPkgType(pc.Args[0].Type(), "reflect", "Kind") {
+		callee := pc.StaticCallee()
+		if callee == nil || !p.InModule(callee) {
+			return nil, nil, false
+		}
+		tab := kindTableOf(p, callee, 0)
+		if !tab.ok {
+			return nil, nil, false
+		}
+		for pr, val := range tab.val {
+			if (val == 1) == taken {
+				in[pr[0]] = true
+			}
+		}
+		return pc.Args[0], in, true
+	}
+	return nil, nil, false
+}
+
+// P16: what values.Convert hands back with a nil error is wrapped by its callers with reflect.ValueOf and
+// appended, set or passed on; reflect.ValueOf(nil) is the zero Value, on which Append and Call panic. So a
+// successful return of Convert carries a value: never the nil constant, and the argument itself only where
+// it was found non-nil.
+func init() {
+	register("P16", "values.Convert never succeeds with a nil result: every return with a nil error has a first result that is not the nil constant (its callers wrap the result with reflect.ValueOf and append or pass it; the zero reflect.Value panics there)", runP16)
+}
+
+func runP16(p *an.Prog, r *an.Result) {
+	fn := p.Func("values.Convert")
+	if fn == nil {
+		r.Bad("values.Convert", "not found", token.NoPos, "anchor not resolved")
+		return
+	}
+	// the result is relied on: some caller wraps it with reflect.ValueOf
+	wrapped := 0
+	for _, f := range p.Funcs {
+		an.EachCall(f, func(ci ssa.CallInstruction) {
+			c := ci.Common()
+			if an.CallName(c) != "reflect.ValueOf" || len(c.Args) != 1 {
+				return
+			}
+			for _, o := range an.Origins(c.Args[0], an.StepValue) {
+				if ex, ok := o.(*ssa.Extract); ok && ex.Index == 0 {
+					if cc, ok := ex.Tuple.(*ssa.Call); ok && cc.Call.StaticCallee() == fn {
+						wrapped++
+					}
+				}
+			}
+		})
+	}
+	r.Counts["results wrapped with ValueOf"] = wrapped
+	if wrapped == 0 {
+		r.OK(an.FuncName(fn), "no caller wraps the result with reflect.ValueOf", an.FuncPos(fn), "nothing relies on a non-nil result")
+		return
+	}
+	var check func(f *ssa.Function, depth int)
+	seen := map[*ssa.Function]bool{}
+	check = func(f *ssa.Function, depth int) {
+		if seen[f] || depth > 3 {
+			return
+		}
+		seen[f] = true
+		name := an.FuncName(f)
+		an.EachInstr(f, func(in ssa.Instruction) {
+			ret, ok := in.(*ssa.Return)
+			if !ok {
+				return
+			}
+			res := resultsOf(ret)
+			if len(res) != 2 {
+				return
+			}
+			if !an.IsNilConst(res[1]) {
+				// both results of a helper handed back as they are: the helper's successful returns count
+				if e1, ok := res[1].(*ssa.Extract); ok && e1.Index == 1 {
+					if e0, ok := res[0].(*ssa.Extract); ok && e0.Index == 0 && e0.Tuple == e1.Tuple {
+						if cc, ok := e0.Tuple.(*ssa.Call); ok {
+							if h := cc.Call.StaticCallee(); h != nil && p.InModule(h) && h != fn {
+								check(h, depth+1)
+							}
+						}
+					}
+				}
+				return // a failure, or an error that is passed on with whatever came with it
+			}
+			r.Counts["successful returns"]++
+			bad := ""
+			for _, o := range an.Origins(res[0], an.StepValue) {
+				if an.IsNilConst(o) {
+					bad = "the nil constant"
+				}
+				if ex, ok := o.(*ssa.Extract); ok && ex.Index == 0 {
+					if cc, ok := ex.Tuple.(*ssa.Call); ok {
+						if h := cc.Call.StaticCallee(); h != nil && p.InModule(h) && h != fn && h.Signature.Results().Len() == 2 {
+							check(h, depth+1) // a helper whose result is returned as it is
+						}
+					}
+				}
+			}
+			if bad != "" {
+				r.Bad(name, "succeeds with "+bad, ret.Pos(), "a caller wraps the result with reflect.ValueOf and appends or passes it: the zero reflect.Value panics in reflect.Append and reflect.Value.Call")
+			} else {
+				r.OK(name, "successful return carries a value", ret.Pos(), "")
+			}
+		})
+	}
+	check(fn, 0)
+	r.Floor("successful returns", 1)
 }
